@@ -91,6 +91,9 @@ def state_case(draw, types=TYPES, n=(1, 4), nh=(1, 4), na=(1, 3), scales=SCALES,
             case["ph"] = draw(net_params(nv, nhid, None, scales))
     if unitaries and t != "positive" and draw(st.booleans()):
         case["unitaries"] = draw(user_unitaries())
+    if unitaries and t != "positive":
+        # the order in which the letters were put into the state's dictionary is immaterial: 0 = as create_dict returns it, 1 = reversed, 2 = rotated by one
+        case["unitary_key_order"] = draw(st.sampled_from([0, 0, 1, 2]))
     return rescale_case(case, bound)
 
 
@@ -136,7 +139,13 @@ def ref_unitary_dict(case):
 def lib_unitary_dict(case):
     from qucumber.utils import unitaries
     extra = {k: R.c_to_lib(R.unitary_from_angles(*ang)) for k, ang in (case.get("unitaries") or {}).items()}
-    return unitaries.create_dict(**extra)
+    d = unitaries.create_dict(**extra)
+    ko = case.get("unitary_key_order", 0)
+    if ko:
+        keys = list(d.keys())
+        keys = keys[::-1] if ko == 1 else keys[1:] + keys[:1]
+        d = {k: d[k] for k in keys}          # same letters, same matrices, another insertion order
+    return d
 
 
 def set_net(rbm, net):
@@ -154,9 +163,9 @@ def build_state(case):
     if t == "positive":
         s = PositiveWaveFunction(n, nh, gpu=False)
     elif t == "complex":
-        s = ComplexWaveFunction(n, nh, unitary_dict=lib_unitary_dict(case) if case.get("unitaries") else None, gpu=False)
+        s = ComplexWaveFunction(n, nh, unitary_dict=lib_unitary_dict(case) if (case.get("unitaries") or case.get("unitary_key_order")) else None, gpu=False)
     else:
-        s = DensityMatrix(n, nh, case["na"], unitary_dict=lib_unitary_dict(case) if case.get("unitaries") else None, gpu=False)
+        s = DensityMatrix(n, nh, case["na"], unitary_dict=lib_unitary_dict(case) if (case.get("unitaries") or case.get("unitary_key_order")) else None, gpu=False)
     set_net(s.rbm_am, case["am"])
     if case.get("ph"):
         set_net(s.rbm_ph, case["ph"])
@@ -213,6 +222,22 @@ def max_abs_param(case):
     return m
 
 
+def max_preactivation(case):
+    """largest |c_j + W_j.v| / |d_k + U_k.v| over all visible states and both networks (bounded by |bias| + sum of |weights| of the row).
+    torch's softplus is exact to rounding below its threshold 20; above it the library's documented arithmetic deviates by e^-20 per unit,
+    in energies AND (through the auxiliary-unit terms of mixed states) in gradients."""
+    worst = 0.0
+    for net in ("am", "ph"):
+        d = case.get(net)
+        if not d:
+            continue
+        for wkey, bkey in (("W", "c"), ("U", "d")):
+            if wkey in d:
+                for row, bias in zip(d[wkey], d[bkey]):
+                    worst = max(worst, abs(float(bias)) + sum(abs(float(x)) for x in row))
+    return worst
+
+
 def arch_label(case):
     lab = [f"type={case['type']}", f"n={case['n']}"]
     if case["nh"] != case["n"]:
@@ -225,6 +250,8 @@ def arch_label(case):
         lab.append("rescaled")
     if case.get("unitaries"):
         lab.append("user_unitaries")
+    if case.get("unitary_key_order"):
+        lab.append("unitary_dict_key_order!=default")
     if case.get("large"):
         lab.append("large(beyond-box)")
     if case.get("ph_aux_nonzero"):
